@@ -1607,6 +1607,13 @@ class Flattener(object):
 
             def visit_Call(self, node):
                 self.generic_visit(node)
+                # dict((k, v) for t in S if c) is {k: v for t in S if c}
+                if isinstance(node.func, ast.Name) and node.func.id == 'dict' and len(node.args) == 1 and not node.keywords and \
+                        isinstance(node.args[0], (ast.GeneratorExp, ast.ListComp)) and isinstance(node.args[0].elt, ast.Tuple) and \
+                        len(node.args[0].elt.elts) == 2:
+                    self.n += 1
+                    g_ = node.args[0]
+                    return ast.copy_location(ast.DictComp(key=g_.elt.elts[0], value=g_.elt.elts[1], generators=g_.generators), node)
                 # operator.contains(a, b) is `b in a`; operator.getitem(a, b) is `a[b]`
                 if isinstance(node.func, ast.Attribute) and isinstance(node.func.value, ast.Name) and node.func.value.id == 'operator' and \
                         len(node.args) == 2 and not node.keywords and node.func.attr in ('contains', 'getitem'):
